@@ -29,6 +29,7 @@ THEOREMS = [{'name': f'Props.C09.{n}', 'module': M} for n in [
     {'name': 'Model.post_resp', 'module': 'MorphKgc.Lemmas.SurfaceEval'}]
 # hypothesis-free theorems of the repaired shapes the translator reads from /repo now (Props/C09Now.lean)
 THEOREMS += [{'name': f'Props.C09.{n}', 'module': 'MorphKgc.Props.C09Now'} for n in ['C09_current_yarrrml_shapes', 'C09_yarrrml_template_current', 'C09_yarrrml_term_current', 'C09_current_object_delivery', 'C09_pomFactor_current']]
+LINKS = [{'target': 'MorphKgc.Props.C09Link', 'needs': ['MorphKgc.Props.C01'], 'theorems': [{'name': f'Props.C09Link.{n}', 'module': 'MorphKgc.Props.C09Link'} for n in ['C09_link_set', 'C09_link_list', 'C09_writeDefaults', 'respelling_rawRules', 'respelling_all', 'C09_C01_end_to_end_partial', 'C09_C01_all_respellings_partial', 'names_agree']]}]
 RULE = ('ONE abstract document (core fragment + referencing object maps; 1-3 triples maps, 0-3 predicate-object maps with 1-2 predicate / '
         'object / graph maps, classes, subject graph maps, rr:defaultGraph, language tags, datatypes incl. xsd:string) over CSV tables or the '
         'same tables in SQLite is rendered by tools/surfgen.py into 8-12 spellings per case: vocabulary R2RML (SQLite only) / RML / legacy RML '
